@@ -6,6 +6,7 @@
             observation and output), without calling the model's partition. *)
 From PF Require Export Par.Partition Par.Interleave Check.Common.
 From Coq Require Import List Arith NArith ZArith Bool.
+From Coq Require Export Uint63.
 Import ListNotations.
 
 (* ---- the harness' deterministic test data (same formulas in harness/cmd/c10/main.go) ---- *)
@@ -40,23 +41,39 @@ Close Scope N_scope.
    and the (sorted) indices of calls outside [0,n) *)
 Record obs := { o_cnt : list N; o_val : list N; o_oob : list Z }.
 
+(* The harness writes the (many) counters and value codes as primitive 63-bit integers: a literal of type `int`
+   is one kernel node, a literal of type N costs one constructor per bit, and reading the case files dominated
+   the wall time of the check.  All codes are below 2^45; they are converted to N before anything is judged. *)
+Definition n_of_int (x : int) : N := Z.to_N (Uint63.to_Z x).
+Record robs := { r_cnt : list int; r_val : list int; r_oob : list Z }.
+Definition obs_of (r : robs) : obs :=
+  {| o_cnt := map n_of_int (r_cnt r); o_val := map n_of_int (r_val r); o_oob := r_oob r |}.
+
 Inductive case :=
-(* the parallel entry points (pool size s) ... *)
-| CScan (arity : nat) (salt : N) (n s : nat) (par : obs)
-| CPrims (topo : nat) (salt : N) (nidx nverts s : nat) (par : obs)
-| CMod (arity : nat) (salt : N) (n s : nat) (par : obs) (par_out : list N) (orig_kept : bool)
+(* the parallel entry points (pool size s) ...
+   rest_ok: everything of the returned mesh that the entry point does not compute -- topology, index buffer, every
+   other attribute (same and other arities) -- is bitwise what the input mesh holds (scans return the receiver);
+   orig_kept: the input mesh still holds its original data after the call.
+   The harness may have made the call in an unusual situation recorded in the case description only: several
+   goroutines calling the same entry point on the same mesh at once (every caller must see the ideal observation),
+   the result read back only after further calls on other meshes (a retained result must not change), meshes of
+   every topology with extra attributes. *)
+| CScan (arity : nat) (salt : N) (n s : nat) (par : robs) (rest_ok : bool)
+| CPrims (topo : nat) (salt : N) (nidx nverts s : nat) (par : robs) (rest_ok : bool)
+| CMod (arity : nat) (salt : N) (n s : nat) (par : robs) (par_out : list int) (orig_kept rest_ok : bool)
 (* ... and their sequential counterparts on the same input (one case serves every pool size): parallel and
    sequential are compared by judging both against the same ideal observation / output *)
-| CSeqScan (arity : nat) (salt : N) (n : nat) (seq_ : obs)
-| CSeqPrims (topo : nat) (salt : N) (nidx nverts : nat) (seq_ : obs)
-| CSeqMod (arity : nat) (salt : N) (n : nat) (seq_ : obs) (seq_out : list N) (orig_kept : bool)
+| CSeqScan (arity : nat) (salt : N) (n : nat) (seq_ : robs) (rest_ok : bool)
+| CSeqPrims (topo : nat) (salt : N) (nidx nverts : nat) (seq_ : robs) (rest_ok : bool)
+| CSeqMod (arity : nat) (salt : N) (n : nat) (seq_ : robs) (seq_out : list int) (orig_kept rest_ok : bool)
 | CPanic (n : nat) (s : Z) (panicked : bool)          (* pool size < 1: declared panic *)
-(* marching: canvas-space boxes of the fields added (in order), number of Float1Functions of each
-   field (all fields use the same attribute names), chunk tables read back from both canvases as
+(* marching: canvas-space boxes of the fields added (in order) with the number of Float1Functions of each
+   field (field k carries the attributes 0 .. nfun_k - 1; nfun is the number of attributes of the canvas),
+   chunk tables read back from both canvases as
    (attribute, chunk position, number of non-zero cells) in the order attribute, x, y, z;
    canvas_eq: same (attribute, chunk) keys and bitwise equal cell arrays;
    march_eq: same panic status and same multiset of triangles (weld-cell keys) *)
-| CMarch (boxes : list (vec * vec)) (nfun : nat)
+| CMarch (boxes : list (nat * (vec * vec))) (nfun : nat)
          (seq_chunks par_chunks : list (nat * vec * Z)) (canvas_eq march_eq : bool)
 (* large element counts (too long for per-index lists): run-length encoding (count, run length) of the
    calls per index over [0,n), number of indices whose recorded value (scan: value seen; modify: value
@@ -130,36 +147,37 @@ Definition runs_eqb (a b : list (N * N)) : bool :=
 (* ---- model vs implementation ---- *)
 Definition corr_ok (c : case) : bool :=
   match c with
-  | CScan a salt n s par =>
+  | CScan a salt n s par _ =>
       let xs := map (dat_code a salt) (seq 0 n) in
-      forallb (fun e => obs_eqb (tally n e) par) (model_scan xs s)
-  | CPrims t salt nidx nverts s par =>
+      forallb (fun e => obs_eqb (tally n e) (obs_of par)) (model_scan xs s)
+  | CPrims t salt nidx nverts s par _ =>
       let n := prim_work (topo_of t) nidx in
       let xs := map (prim_code (topo_of t) salt nverts) (seq 0 n) in
-      forallb (fun e => obs_eqb (tally n e) par) (model_scan xs s)
-  | CMod a salt n s par par_out _ =>
+      forallb (fun e => obs_eqb (tally n e) (obs_of par)) (model_scan xs s)
+  | CMod a salt n s par par_out _ _ =>
       let xs := map (dat_code a salt) (seq 0 n) in
-      forallb (fun out => list_eqb N.eqb out par_out) (model_modify a xs s)
-      && obs_eqb (tally n (model_modify_calls a xs s)) par
-  | CSeqScan a salt n sq =>
-      let xs := map (dat_code a salt) (seq 0 n) in obs_eqb (tally n (scan_seq xs)) sq
-  | CSeqPrims t salt nidx nverts sq =>
+      forallb (fun out => list_eqb N.eqb out (map n_of_int par_out)) (model_modify a xs s)
+      && obs_eqb (tally n (model_modify_calls a xs s)) (obs_of par)
+  | CSeqScan a salt n sq _ =>
+      let xs := map (dat_code a salt) (seq 0 n) in obs_eqb (tally n (scan_seq xs)) (obs_of sq)
+  | CSeqPrims t salt nidx nverts sq _ =>
       let n := prim_work (topo_of t) nidx in
-      let xs := map (prim_code (topo_of t) salt nverts) (seq 0 n) in obs_eqb (tally n (scan_seq xs)) sq
-  | CSeqMod a salt n sq seq_out _ =>
+      let xs := map (prim_code (topo_of t) salt nverts) (seq 0 n) in obs_eqb (tally n (scan_seq xs)) (obs_of sq)
+  | CSeqMod a salt n sq seq_out _ _ =>
       let xs := map (dat_code a salt) (seq 0 n) in
-      list_eqb N.eqb (modify_seq (gcode a) xs) seq_out && obs_eqb (tally n (scan_seq xs)) sq
+      list_eqb N.eqb (modify_seq (gcode a) xs) (map n_of_int seq_out) && obs_eqb (tally n (scan_seq xs)) (obs_of sq)
   | CPanic n s panicked =>
       Bool.eqb panicked (match par_indices n (Z.to_nat s) with None => true | Some _ => (s <? 0)%Z end)
   | CMarch boxes nfun seqc parc _ _ =>
       let keys l := map (fun t : nat * vec * Z => (fst (fst t), snd (fst t))) l in
-      let model_keys := flat_map (fun b => keys (model_chunks b nfun)) boxes in
+      let model_keys := flat_map (fun b => keys (model_chunks (snd b) (fst b))) boxes in
       (* both chunk tables hold exactly the chunks the model allocates ... *)
       forallb (fun k => key_in k model_keys) (keys seqc) && forallb (fun k => key_in k (keys seqc)) model_keys
       && forallb (fun k => key_in k model_keys) (keys parc) && forallb (fun k => key_in k (keys parc)) model_keys
       (* ... and, for a single field, in the model's order with the model's number of written cells *)
       && match boxes with
-         | [b] => list_eqb triple_eqb (model_chunks b nfun) seqc && list_eqb triple_eqb (model_chunks b nfun) parc
+         | [b] => list_eqb triple_eqb (model_chunks (snd b) (fst b)) seqc
+                  && list_eqb triple_eqb (model_chunks (snd b) (fst b)) parc
          | _ => true
          end
   | CLarge n s runs bad oob _ =>
@@ -172,14 +190,14 @@ Definition corr_ok (c : case) : bool :=
 (* ---- the property on the implementation's output (direct oracle) ---- *)
 Definition prop_ok (c : case) : bool :=
   match c with
-  | CScan a salt n _ o | CSeqScan a salt n o =>
-      obs_eqb o (ideal (map (dat_code a salt) (seq 0 n)))
-  | CPrims t salt nidx nverts _ o | CSeqPrims t salt nidx nverts o =>
+  | CScan a salt n _ o rest | CSeqScan a salt n o rest =>
+      obs_eqb (obs_of o) (ideal (map (dat_code a salt) (seq 0 n))) && rest
+  | CPrims t salt nidx nverts _ o rest | CSeqPrims t salt nidx nverts o rest =>
       let n := Z.to_nat (prim_count (topo_of t) nidx) in
-      obs_eqb o (ideal (map (prim_code (topo_of t) salt nverts) (seq 0 n)))
-  | CMod a salt n _ o out kept | CSeqMod a salt n o out kept =>
-      list_eqb N.eqb out (map (out_code a salt) (seq 0 n))
-      && obs_eqb o (ideal (map (dat_code a salt) (seq 0 n))) && kept
+      obs_eqb (obs_of o) (ideal (map (prim_code (topo_of t) salt nverts) (seq 0 n))) && rest
+  | CMod a salt n _ o out kept rest | CSeqMod a salt n o out kept rest =>
+      list_eqb N.eqb (map n_of_int out) (map (out_code a salt) (seq 0 n))
+      && obs_eqb (obs_of o) (ideal (map (dat_code a salt) (seq 0 n))) && kept && rest
   | CPanic _ _ _ => true                      (* pool sizes below one are outside the property *)
   | CMarch _ _ seqc parc ceq meq => list_eqb triple_eqb seqc parc && ceq && meq
   | CLarge n _ runs bad oob same => runs_eqb runs (ideal_runs n) && (bad =? 0)%N && (oob =? 0)%N && same
